@@ -259,29 +259,32 @@ func c17newworld(n, t10 int) *c17world {
 		}
 		w.menu = append(w.menu, w.join("join-c1-self+"+nm, c1.addr, c1start, append([]c17sign{self(c1)}, ms(idx...)...)...))
 	}
-	allbutlast := all[:n-1]
+	// "under": one member sign less than the exact requirement ceil(n*t/100)
+	need := (n*t10 + 999) / 1000
+	under := all[:need-1]
+	last := w.members[need-1]
 	w.menu = append(w.menu,
 		// all members, no sign of the candidate (SuffrageJoin.IsValid rejects; the processor must too)
 		w.join("join-c1-noself+all", c1.addr, c1start, ms(all...)...),
 		// candidate address signed with a foreign key
 		w.join("join-c1-selfwrongkey+all", c1.addr, c1start, append([]c17sign{{n: w.foreign, addr: c1.addr}}, ms(all...)...)...),
-		// n-1 members + a foreign node
-		w.join("join-c1-self+allbutlast+foreign", c1.addr, c1start, append(append([]c17sign{self(c1)}, ms(allbutlast...)...), c17sign{n: w.foreign})...),
-		// n-1 members + the last member's address signed with a foreign key
-		w.join("join-c1-self+allbutlast+lastaddr-foreignkey", c1.addr, c1start,
-			append(append([]c17sign{self(c1)}, ms(allbutlast...)...), c17sign{n: w.foreign, addr: w.members[n-1].addr})...),
-		// n-1 members + the first member's key under a non-member address (one key, two node addresses)
-		w.join("join-c1-self+allbutlast+ghostaddr-memberkey", c1.addr, c1start,
-			append(append([]c17sign{self(c1)}, ms(allbutlast...)...), c17sign{n: w.members[0], addr: w.ghost})...),
+		// need-1 members + a foreign node
+		w.join("join-c1-self+under+foreign", c1.addr, c1start, append(append([]c17sign{self(c1)}, ms(under...)...), c17sign{n: w.foreign})...),
+		// need-1 members + a further member's address signed with a foreign key
+		w.join("join-c1-self+under+memberaddr-foreignkey", c1.addr, c1start,
+			append(append([]c17sign{self(c1)}, ms(under...)...), c17sign{n: w.foreign, addr: last.addr})...),
+		// need-1 members + the first member's key under a non-member address (one key, two node addresses)
+		w.join("join-c1-self+under+ghostaddr-memberkey", c1.addr, c1start,
+			append(append([]c17sign{self(c1)}, ms(under...)...), c17sign{n: w.members[0], addr: w.ghost})...),
 		w.join("join-c2-expired-self+all", c2.addr, w.cands[c2.addr.String()].start, append([]c17sign{self(c2)}, ms(all...)...)...),
 		w.join("join-c3-notcandidate-self+all", c3.addr, c17H-2, append([]c17sign{self(c3)}, ms(all...)...)...),
 		w.join("join-ma-member-self+all", w.members[0].addr, c17H-2, ms(all...)...),
 		w.join("join-c1-wrongstart-self+all", c1.addr, c1start+1, append([]c17sign{self(c1)}, ms(all...)...)...),
 	)
-	// n-1 distinct members, the first of them signing twice (duplicated node sign; only constructible through the wire format)
+	// need-1 distinct members, the first of them signing twice (duplicated node sign; only constructible through the wire format)
 	w.menu = append(w.menu, w.dupsign(
-		w.join("join-c1-self+allbutlast+dup", c1.addr, c1start, append([]c17sign{self(c1)}, ms(allbutlast...)...)...),
-		"join-c1-self+allbutlast+dupfirst", 1))
+		w.join("join-c1-self+under+dup", c1.addr, c1start, append([]c17sign{self(c1)}, ms(under...)...)...),
+		"join-c1-self+under+dupfirst", 1))
 
 	a, b := w.members[0], w.members[1]
 	w.menu = append(w.menu,
@@ -387,9 +390,9 @@ type c17fs struct {
 	m      base.BlockMap
 }
 
-func (f *c17fs) SetProposal(context.Context, base.ProposalSignFact) error        { return nil }
+func (f *c17fs) SetProposal(context.Context, base.ProposalSignFact) error           { return nil }
 func (f *c17fs) SetOperation(context.Context, uint64, uint64, base.Operation) error { return nil }
-func (f *c17fs) SetOperationsTree(context.Context, fixedtree.Tree) error         { return nil }
+func (f *c17fs) SetOperationsTree(context.Context, fixedtree.Tree) error            { return nil }
 func (f *c17fs) SetState(_ context.Context, _, _ uint64, st base.State) error {
 	f.mu.Lock()
 	defer f.mu.Unlock()
@@ -397,26 +400,26 @@ func (f *c17fs) SetState(_ context.Context, _, _ uint64, st base.State) error {
 
 	return nil
 }
-func (f *c17fs) SetStatesTree(context.Context, fixedtree.Tree) error              { return nil }
-func (f *c17fs) SetManifest(context.Context, base.Manifest) error                 { return nil }
-func (f *c17fs) SetINITVoteproof(context.Context, base.INITVoteproof) error       { return nil }
-func (f *c17fs) SetACCEPTVoteproof(context.Context, base.ACCEPTVoteproof) error   { return nil }
-func (f *c17fs) Save(context.Context) (base.BlockMap, error)                      { return f.m, nil }
-func (f *c17fs) Cancel() error                                                    { return nil }
+func (f *c17fs) SetStatesTree(context.Context, fixedtree.Tree) error            { return nil }
+func (f *c17fs) SetManifest(context.Context, base.Manifest) error               { return nil }
+func (f *c17fs) SetINITVoteproof(context.Context, base.INITVoteproof) error     { return nil }
+func (f *c17fs) SetACCEPTVoteproof(context.Context, base.ACCEPTVoteproof) error { return nil }
+func (f *c17fs) Save(context.Context) (base.BlockMap, error)                    { return f.m, nil }
+func (f *c17fs) Cancel() error                                                  { return nil }
 
 type c17db struct{}
 
-func (c17db) Close() error                               { return nil }
-func (c17db) Cancel() error                              { return nil }
-func (c17db) BlockMap() (base.BlockMap, error)           { return nil, nil }
-func (c17db) SetBlockMap(base.BlockMap) error            { return nil }
-func (c17db) SetStates([]base.State) error               { return nil }
-func (c17db) SetOperations([]util.Hash) error            { return nil }
-func (c17db) SetSuffrageProof(base.SuffrageProof) error  { return nil }
-func (c17db) SuffrageState() base.State                  { return nil }
-func (c17db) NetworkPolicy() base.NetworkPolicy          { return nil }
-func (c17db) Write() error                               { return nil }
-func (c17db) TempDatabase() (isaac.TempDatabase, error)  { return nil, nil }
+func (c17db) Close() error                              { return nil }
+func (c17db) Cancel() error                             { return nil }
+func (c17db) BlockMap() (base.BlockMap, error)          { return nil, nil }
+func (c17db) SetBlockMap(base.BlockMap) error           { return nil }
+func (c17db) SetStates([]base.State) error              { return nil }
+func (c17db) SetOperations([]util.Hash) error           { return nil }
+func (c17db) SetSuffrageProof(base.SuffrageProof) error { return nil }
+func (c17db) SuffrageState() base.State                 { return nil }
+func (c17db) NetworkPolicy() base.NetworkPolicy         { return nil }
+func (c17db) Write() error                              { return nil }
+func (c17db) TempDatabase() (isaac.TempDatabase, error) { return nil, nil }
 
 type c17opresult struct {
 	instate bool
@@ -443,15 +446,15 @@ func (w *c17writer) SetProcessResult(ctx context.Context, index uint64, op, fact
 }
 
 type c17outcome struct {
-	produced  bool   // a new suffrage state was written
-	value     string // canonical members + suffrage height
-	members   map[string][2]string
-	sufheight base.Height
-	notsuf    string // error of SuffrageNodesStateValue.Suffrage()
-	stheight  base.Height
-	statehash string
+	produced   bool   // a new suffrage state was written
+	value      string // canonical members + suffrage height
+	members    map[string][2]string
+	sufheight  base.Height
+	notsuf     string // error of SuffrageNodesStateValue.Suffrage()
+	stheight   base.Height
+	statehash  string
 	candidates string
-	results   map[string]c17opresult
+	results    map[string]c17opresult
 }
 
 func (w *c17world) getState(key string) (base.State, bool, error) {
